@@ -334,6 +334,8 @@ struct H {
     /// query message (a draining factory whose last busy worker died: `handle_supervisor_evt` has no
     /// `is_drained()` check, the next message of any kind stops it)
     stop_by_query: u64,
+    /// discard-handler calls with reason RateLimited
+    rl_refused: u64,
 }
 
 impl H {
@@ -382,6 +384,7 @@ impl H {
         let mut starts = std::mem::take(&mut s.starts);
         starts.sort();
         let discs = std::mem::take(&mut s.discs);
+        self.rl_refused += discs.iter().filter(|d| d.starts_with("RateLimited")).count() as u64;
         let hooks = std::mem::take(&mut s.hooks);
         let wq = s.wq.take();
         let nbuilt = s.next_aid;
@@ -574,6 +577,7 @@ where
     Q: Queue<K, M>,
 {
     let t0 = Instant::now();
+    let rname = cfg.router.clone();
     let sh: Sh = Arc::new(Mutex::new(Shared::default()));
     let lim = match cfg.rl.as_str() {
         "none" => Lim::Off,
@@ -602,7 +606,7 @@ where
     let def = Factory::<K, M, (), GW, Spy<RateLimitedRouter<R, Lim>>, Q>::default();
     let (factory, _handle) = Actor::spawn(None, def, args).await.expect("factory spawn");
     let fid = factory.get_id().pid();
-    let mut h = H { factory, fid, sh: sh.clone(), t0, acc: vec![], blocked: false, live: vec![], stop_by_query: 0 };
+    let mut h = H { factory, fid, sh: sh.clone(), t0, acc: vec![], blocked: false, live: vec![], stop_by_query: 0, rl_refused: 0 };
     // half a millisecond off the grid of the factory's own timers
     tokio::time::sleep(Duration::from_micros(500)).await;
     let (times, obs) = h.observe(0).await;
@@ -806,6 +810,10 @@ where
     }
     // tear down: stop the factory (post_stop stops the workers)
     st.lock().unwrap().add("drained_factory_stopped_only_by_next_message", h.stop_by_query);
+    st.lock().unwrap().add("ratelimited_refusals", h.rl_refused);
+    if rname == "q" {
+        st.lock().unwrap().add("queuer_ratelimited_refusals", h.rl_refused);
+    }
     h.factory.stop(None);
     for (_, tx) in h.sh.lock().unwrap().gates.drain() {
         let _ = tx.send(Outcome::Ok);
